@@ -44,7 +44,7 @@ class ConcreteCtx:
     def boolean(self, name):
         return bool(self._get(name, False))
 
-    def uf(self, fname, arg, lo=None, hi=None):
+    def uf(self, fname, arg, lo=None, hi=None, mod=None):
         tab = self.uf_tab.setdefault(fname, {})
         arg = int(arg)
         if arg not in tab:
@@ -126,6 +126,38 @@ class ConcreteCtx:
         self.installed = []
 
 
+class CBV:
+    """concrete w-bit modular value (reference side of kernel obligations)"""
+    __slots__ = ("v", "w")
+
+    def __init__(self, v, w):
+        self.v, self.w = v & ((1 << w) - 1), w
+
+    def _o(s, o): return o.v if isinstance(o, CBV) else o
+    def __add__(s, o): return CBV(s.v + s._o(o), s.w)
+    def __mul__(s, o): return CBV(s.v * s._o(o), s.w)
+    def __xor__(s, o): return CBV(s.v ^ s._o(o), s.w)
+    def __and__(s, o): return CBV(s.v & s._o(o), s.w)
+    def __sub__(s, o): return CBV(s.v - s._o(o), s.w)
+    def zext(s, w): return CBV(s.v, max(w, s.w))
+    def trunc(s, w): return CBV(s.v, w)
+    def eq(s, o): return s.v == (s._o(o) & ((1 << s.w) - 1))
+    def ult(s, o): return s.v < s._o(o)
+
+
+def _bv_methods():
+    def bv(self, name, w): return CBV(int(self._get(name, 0)), w)
+    def bvconst(self, v, w): return CBV(v, w)
+    def wide(self, x): return x.v if isinstance(x, CBV) else int(x)
+    def narrow(self, x, w): return CBV(int(x), w)
+    def fits(self, x, w): return 0 <= int(x) < (1 << w)
+    def same_int(self, x, y): return int(x) == int(y)
+    def no_overflow(self): return True
+    for f in (bv, bvconst, wide, narrow, fits, same_int, no_overflow):
+        setattr(ConcreteCtx, f.__name__, f)
+
+
+_bv_methods()
 _MISSING = object()
 
 
